@@ -22,6 +22,8 @@ static void hl_on_read(int fd, uint32_t serial)
   hl_last_read_serial = serial;
 }
 
+static void hl_hist_push(void);
+
 static void hl_reset_config(const int *idx, int n)
 {
   int i, k;
@@ -35,8 +37,20 @@ static void hl_reset_config(const int *idx, int n)
     if (now_cfg && !hl_configured[k]) {
       hl_cnt[k] = 0; /* a newly added server starts healthy */
     }
+    if (!now_cfg && hl_configured[k]) {
+      /* attempts still waiting on a server that has just been removed are moved to the remaining servers; over
+       * TCP the move reaches the network only after the new connection is up, i.e. after the setter returned:
+       * the attempt they leave behind did not fail */
+      int x;
+      for (x = 0; x < sim_ntx; x++) {
+        if (sim_tx[x].srv == k) {
+          sim_tx[x].moved_by_list_change = 1;
+        }
+      }
+    }
     hl_configured[k] = now_cfg;
   }
+  hl_hist_push();
 }
 
 static void mon_health_state(int srv, int success, int flags)
@@ -71,12 +85,74 @@ static void mon_health_state(int srv, int success, int flags)
     hl_cnt[srv]++;
     hl_last_fail_us[srv] = sim_now_us;
   }
+  hl_hist_push();
+}
+
+/* A stream connection is chosen when it is opened; the first query on it reaches the server one connection
+ * delay later, and other servers may have been reported good or bad in between: the destination of that query
+ * is judged against the failure counts at the time of connect(). */
+static int     hl_snap[SIM_MAXFD][SIM_MAXSRV];
+static uint8_t hl_snap_state[SIM_MAXFD]; /* 0 none, 1 taken, 2 used */
+static int64_t hl_snap_fail_us[SIM_MAXFD][SIM_MAXSRV];
+static int64_t hl_snap_time[SIM_MAXFD];
+static int64_t hl_snap_first_tx[SIM_MAXFD];
+static void    mon_health_connect(int fd, int srv, int is_tcp)
+{
+  (void)srv;
+  if (is_tcp && fd >= 0 && fd < SIM_MAXFD) {
+    memcpy(hl_snap[fd], hl_cnt, sizeof(hl_snap[fd]));
+    memcpy(hl_snap_fail_us[fd], hl_last_fail_us, sizeof(hl_snap_fail_us[fd]));
+    hl_snap_state[fd] = 1;
+    hl_snap_time[fd]  = sim_now_us;
+  }
+}
+
+/* history of the failure counts (one entry per reported state change or list change) */
+#define HL_HIST 1024
+static struct {
+  int64_t t;
+  int     cnt[SIM_MAXSRV];
+} hl_hist[HL_HIST];
+static int hl_nhist;
+static void hl_hist_push(void)
+{
+  if (hl_nhist < HL_HIST) {
+    hl_hist[hl_nhist].t = sim_now_us;
+    memcpy(hl_hist[hl_nhist].cnt, hl_cnt, sizeof(hl_cnt));
+    hl_nhist++;
+  }
+}
+
+/* is `srv` a legal destination under the counts `cnt`?  bit 0: it has the fewest failures; bit 1: it is also the
+ * first such server in configuration order */
+static int hl_legal(const int *cnt, int srv, int *minc_out, int *first_out)
+{
+  int i, minc = 1 << 30, first_min = -1;
+  for (i = 0; i < app_cfg.nsrv_cfg; i++) {
+    int s = app_cfg.srv_cfg[i];
+    if (cnt[s] < minc) {
+      minc      = cnt[s];
+      first_min = s;
+    }
+  }
+  if (minc_out) {
+    *minc_out = minc;
+  }
+  if (first_out) {
+    *first_out = first_min;
+  }
+  return (cnt[srv] == minc ? 1 : 0) | (srv == first_min ? 2 : 0);
 }
 
 /* every transmission: is the destination allowed by the policy? */
 static void mon_health_tx(sim_tx_t *tx, const sdns_query_t *q, const uint8_t *msg, size_t len)
 {
-  int i, minc = 1 << 30, first_min = -1, nmin = 0, prev = -1, is_probe = 0;
+  int        i, minc = 1 << 30, first_min = -1, nmin = 0, prev = -1, is_probe = 0;
+  int        cur_cnt[SIM_MAXSRV];
+  int64_t    cur_fail_us[SIM_MAXSRV];
+  const int *hl_cnt_saved = NULL;
+  int64_t    decision_time = sim_now_us;
+  int        not_first_only = 0;
   (void)q;
   (void)msg;
   (void)len;
@@ -84,6 +160,17 @@ static void mon_health_tx(sim_tx_t *tx, const sdns_query_t *q, const uint8_t *ms
   if (!tx->wellformed || tx->srv < 0) {
     return;
   }
+  (void)hl_cnt_saved;
+  if (tx->tcp) {
+    /* Over a stream the destination is chosen when the query is queued on a connection, possibly still being set
+     * up, and reaches the server only later; servers are reported good or bad in between.  The instant of the
+     * choice is not observable from outside, so destinations are judged for datagram transmissions only; over
+     * TCP the failure/success anchoring below still applies. */
+    sim_note("health_tcp_destination_not_judged");
+    return;
+  }
+  memcpy(cur_cnt, hl_cnt, sizeof(cur_cnt));
+  memcpy(cur_fail_us, hl_last_fail_us, sizeof(cur_fail_us));
   if (app_in_set_servers) {
     /* queries being moved off removed servers while the list is being replaced: the set of
      * candidates is in flux, not judged; and the attempt they leave behind did not fail */
@@ -98,11 +185,11 @@ static void mon_health_tx(sim_tx_t *tx, const sdns_query_t *q, const uint8_t *ms
   }
   for (i = 0; i < app_cfg.nsrv_cfg; i++) {
     int s = app_cfg.srv_cfg[i];
-    if (hl_cnt[s] < minc) {
-      minc      = hl_cnt[s];
+    if (cur_cnt[s] < minc) {
+      minc      = cur_cnt[s];
       first_min = s;
       nmin      = 1;
-    } else if (hl_cnt[s] == minc) {
+    } else if (cur_cnt[s] == minc) {
       nmin++;
     }
   }
@@ -123,30 +210,73 @@ static void mon_health_tx(sim_tx_t *tx, const sdns_query_t *q, const uint8_t *ms
     hl_decisions_with_failed_server++;
   }
   MON_EVAL("health_destination");
-  if (hl_cnt[tx->srv] == minc) {
-    if (!app_cfg.rotate && tx->srv != first_min) {
-      vh_violation("health:not-first-among-best",
-                   "rotation off: query '%s' sent to server %d (failures %d) although server %d, earlier in the configuration, has the same count",
-                   tx->qname, tx->srv, hl_cnt[tx->srv], first_min);
+  {
+    /* The destination is chosen when the query is handed to a connection.  Over UDP that is the instant the
+     * server sees it.  Over TCP the connection may have been picked (and the query queued on it) any time since
+     * connect() was called for it, and servers are reported good or bad in between: the choice is legal if it was
+     * legal under the counts at some moment in that window. */
+    int legal = hl_legal(cur_cnt, tx->srv, NULL, NULL);
+    int need  = app_cfg.rotate ? 1 : 3; /* fewest failures, and first among them unless rotation picks at random */
+    int pass  = (legal & need) == need;
+    if (tx->tcp && tx->fd >= 0 && tx->fd < SIM_MAXFD && hl_snap_state[tx->fd] == 1) {
+      /* first data on this connection: remember the instant it came up */
+      hl_snap_state[tx->fd]    = 2;
+      hl_snap_first_tx[tx->fd] = tx->t;
     }
-    hl_rotate_hits[tx->srv]++;
-    return;
+    if (tx->tcp && tx->fd >= 0 && tx->fd < SIM_MAXFD && hl_snap_state[tx->fd] == 2 && hl_snap_first_tx[tx->fd] == tx->t) {
+      /* queued while the connection was being set up (an established connection takes a query at once) */
+      int k, l;
+      l = hl_legal(hl_snap[tx->fd], tx->srv, NULL, NULL);
+      legal |= l;
+      pass |= (l & need) == need;
+      for (k = hl_nhist - 1; k >= 0 && hl_hist[k].t >= hl_snap_time[tx->fd]; k--) {
+        l = hl_legal(hl_hist[k].cnt, tx->srv, NULL, NULL);
+        legal |= l;
+        pass |= (l & need) == need;
+      }
+      if (pass && (hl_legal(cur_cnt, tx->srv, NULL, NULL) & need) != need) {
+        sim_note("health_decision_legal_at_an_earlier_moment_of_the_connection");
+      }
+      if (!pass) {
+        /* probe rules below are judged at the time the probe's connection was opened */
+        memcpy(cur_fail_us, hl_snap_fail_us[tx->fd], sizeof(cur_fail_us));
+        decision_time = hl_snap_time[tx->fd];
+      }
+    }
+    if (pass) {
+      hl_rotate_hits[tx->srv]++;
+      return;
+    }
+    not_first_only = (legal & 1);
   }
   /* a non-minimal server may only see a probe: a copy (new id) of a question that was just sent as a
    * first attempt to a minimal server */
-  for (i = sim_ntx - 2; i >= 0 && sim_tx[i].t == tx->t; i--) {
-    if (sim_tx[i].qid != tx->qid && sim_tx[i].qtype == tx->qtype && !strcasecmp(sim_tx[i].qname, tx->qname) && hl_cnt[sim_tx[i].srv] == minc) {
+  /* (request names are unique in this profile; over TCP the probe's own connection delays it past the instant of the
+   * first attempt, so the instant is not part of the test) */
+  for (i = sim_ntx - 2; i >= 0 && sim_tx[i].t + 200000 >= tx->t; i--) {
+    if (sim_tx[i].qid != tx->qid && sim_tx[i].qtype == tx->qtype && !strcasecmp(sim_tx[i].qname, tx->qname) && !sim_tx[i].probe_like) {
       is_probe = 1;
       break;
     }
   }
+  if (!is_probe && tx->tcp && prev < 0) {
+    /* over TCP the probe's connection may complete before the first attempt's: the question it copies is seen a
+     * moment later; confirmed (or reported) at the end of the case */
+    is_probe = 2;
+  }
+  if (!is_probe && not_first_only) {
+    vh_violation("health:not-first-among-best",
+                 "rotation off: query '%s' sent to server %d (failures %d) although server %d, earlier in the configuration, has the same count",
+                 tx->qname, tx->srv, cur_cnt[tx->srv], first_min);
+    return;
+  }
   if (!is_probe) {
     vh_violation("health:sent-to-worse-server", "query '%s' id %u sent to server %d with %d consecutive failures while the best count is %d (%s)",
-                 tx->qname, tx->qid, tx->srv, hl_cnt[tx->srv], minc, prev >= 0 ? "retry" : "first attempt");
+                 tx->qname, tx->qid, tx->srv, cur_cnt[tx->srv], minc, prev >= 0 ? "retry" : "first attempt");
     return;
   }
   hl_probe_seen++;
-  tx->probe_like = 1;
+  tx->probe_like = is_probe;
   sim_note("health_probe_seen");
   MON_EVAL("health_probe_rules");
   if (app_cfg.failover_set && app_cfg.failover_chance == 0) {
@@ -154,16 +284,16 @@ static void mon_health_tx(sim_tx_t *tx, const sdns_query_t *q, const uint8_t *ms
   }
   {
     int64_t delay_us = (int64_t)(app_cfg.failover_set ? app_cfg.failover_delay_ms : 5000) * 1000;
-    if (sim_now_us < hl_last_fail_us[tx->srv] + delay_us) {
+    if (decision_time < cur_fail_us[tx->srv] + delay_us) {
       vh_violation("health:probe-before-retry-delay", "probe sent to server %d %lld ms after its last failure, retry delay is %lld ms", tx->srv,
-                   (long long)((sim_now_us - hl_last_fail_us[tx->srv]) / 1000), (long long)(delay_us / 1000));
+                   (long long)((decision_time - cur_fail_us[tx->srv]) / 1000), (long long)(delay_us / 1000));
     }
   }
   /* at most one probe outstanding per server: a second probe before the first was answered or timed out */
   for (i = sim_ntx - 2; i >= 0; i--) {
     if (sim_tx[i].probe_like && sim_tx[i].srv == tx->srv) {
       /* resolved if a state event for that server happened since */
-      if (hl_last_fail_us[tx->srv] <= sim_tx[i].t && hl_last_success_us[tx->srv] <= sim_tx[i].t) {
+      if (cur_fail_us[tx->srv] <= sim_tx[i].t && hl_last_success_us[tx->srv] <= sim_tx[i].t) {
         vh_violation("health:two-probes-pending", "second probe sent to server %d while the previous one (sent %lld ms ago) is unresolved",
                      tx->srv, (long long)((sim_now_us - sim_tx[i].t) / 1000));
       }
@@ -176,6 +306,25 @@ static void mon_health_tx(sim_tx_t *tx, const sdns_query_t *q, const uint8_t *ms
 static void mon_health_anchor_final(void)
 {
   int i, j;
+  /* probes recognised before the question they copy was seen */
+  for (i = 0; i < sim_ntx; i++) {
+    sim_tx_t *a = &sim_tx[i];
+    int       ok = 0;
+    if (a->probe_like != 2) {
+      continue;
+    }
+    for (j = 0; j < sim_ntx && !ok; j++) {
+      if (j != i && sim_tx[j].qid != a->qid && sim_tx[j].qtype == a->qtype && !strcasecmp(sim_tx[j].qname, a->qname) && !sim_tx[j].probe_like &&
+          sim_tx[j].t + 200000 >= a->t && sim_tx[j].t <= a->t + 200000) {
+        ok = 1;
+      }
+    }
+    if (!ok) {
+      vh_violation("health:sent-to-worse-server", "query '%s' id %u went to failed server %d as a first attempt and no other copy of the question went to a better server",
+                   a->qname, a->qid, a->srv);
+      return;
+    }
+  }
   for (i = 0; i < sim_ntx; i++) {
     sim_tx_t *a = &sim_tx[i];
     int       next = -1, k, nfail = 0;
@@ -192,8 +341,8 @@ static void mon_health_anchor_final(void)
       continue;
     }
     /* the attempt a was followed by another attempt of the same query */
-    if (a->action == SA_SILENT || ((a->action == SA_SERVFAIL || a->action == SA_REFUSED || a->action == SA_NOTIMP) &&
-                                   !(app_cfg.flags & ARES_FLAG_NOCHECKRESP))) {
+    if (a->action == SA_SILENT || (a->tcp && (a->action == SA_CLOSE || a->action == SA_RESET)) ||
+        ((a->action == SA_SERVFAIL || a->action == SA_REFUSED || a->action == SA_NOTIMP) && !(app_cfg.flags & ARES_FLAG_NOCHECKRESP))) {
       MON_EVAL("health_failure_anchored");
       for (k = 0; k < ss_n; k++) {
         if (ss_ev[k].srv == a->srv && !ss_ev[k].success && ss_ev[k].t >= a->t && ss_ev[k].t <= sim_tx[next].t) {
@@ -260,6 +409,17 @@ static void gen_failover(vh_rng_t *rng)
   }
   app_cfg.flags = (vh_chance(rng, 1, 2) ? ARES_FLAG_EDNS : 0) | (vh_chance(rng, 1, 6) ? ARES_FLAG_NOCHECKRESP : 0) |
                   (vh_chance(rng, 1, 3) ? ARES_FLAG_STAYOPEN : 0);
+  if (vh_chance(rng, 1, 5)) {
+    /* stream transport: a server that reads the query and closes (or resets) has failed just like a silent one */
+    app_cfg.flags |= ARES_FLAG_USEVC;
+    for (i = 0; i < sim_nsrv; i++) {
+      sim_srv[i].tcp_connect_delay_ms = 1;
+      if (vh_chance(rng, 1, 3)) {
+        sim_srv[i].w_tcp[vh_chance(rng, 2, 3) ? SA_CLOSE : SA_RESET] += 60;
+      }
+    }
+    sim_note("failover_over_tcp");
+  }
   app_cfg.tries      = vh_range(rng, 1, 3);
   app_cfg.timeout_ms = vh_range(rng, 250, 600);
   app_cfg.rotate     = vh_chance(rng, 1, 3);
@@ -315,6 +475,9 @@ static void run_failover(vh_rng_t *rng)
   gen_failover(rng);
   hl_reset_config(app_cfg.srv_cfg, app_cfg.nsrv_cfg);
   srv_tx_hook           = mon_health_tx;
+  sim_connect_hook      = mon_health_connect;
+  memset(hl_snap_state, 0, sizeof(hl_snap_state));
+  hl_nhist = 0;
   mon_server_state_hook = mon_health_state;
   sim_read_hook         = hl_on_read;
   hl_config_hook        = hl_reset_config;
